@@ -23,6 +23,25 @@ def corrupt_event(evs):
     return False
 
 
+OPS = {"PlainYearMonth.route", "PlainYearMonth.cmp", "PlainYearMonth.add", "PlainYearMonth.subtract", "PlainYearMonth.until", "PlainYearMonth.since",
+       "PlainMonthDay.route", "PlainMonthDay.cmp"}
+NEEDLES = ["str/min", "str/max", "str+day/", "str+day+time/", "date/min", "date/max", "partial/", "partial+day/", "new/", "new+ref/", "with/", "beyond", "feb29",
+           "explicit~plain", "canonical/in-range/ok", "canonical/in-range/beyond", "canonical/min-month/", "explicit-ref/", "/refused", "/year", "/month"]
+
+
+def _vacuity(paths):
+    """non-vacuity: every operation, every kind of route (at both limits), both arithmetic outcomes, the refused units occur"""
+    ops, classes = set(), set()
+    for p in paths:
+        with open(p) as f:
+            for l in f:
+                c = json.loads(l)
+                ops.add(c["op"]); classes.add(c["cls"])
+    missing = sorted(OPS - ops) + [n for n in NEEDLES if not any(n in c for c in classes)]
+    if missing:
+        raise ToolError(f"vacuous C18 instance: never generated {missing}")
+
+
 def _nontrivial(path):
     seen = set()
     with open(path) as f:
@@ -40,11 +59,14 @@ def run(run):
     q = run.tier == "quick"
     nontrivial = 0
     first = None
+    files = []
     for c in (["routes", "qarith"] if q else ["routes", "tarith"]):
         cases, n = run.gen("mc/MC_YearMonth.tla", f"gen/Gen_C18_{c}.cfg", workers=4, name=c, timeout=1500)
         run.replay(b, cases, label=c)
         nontrivial += _nontrivial(cases)
         first = first or cases
+        files.append(cases)
+    _vacuity(files)
     run.negative_control_replay(b, first, corrupt_case, limit=4000)
     tr = run.record(b, "c18", 40000 if q else 600000)
     run.validate("trace/Trace_YearMonth.tla", "trace/Trace_YearMonth.cfg", tr)
